@@ -117,6 +117,12 @@ func TestVerifE5Replay(t *testing.T) {
 		vfE5ReplayExitScan(t, name)
 	case "exit_races_pending_notify":
 		vfE5ReplayExitNotify(t, name)
+	case "exit_races_req", "exit_races_req_deferred", "exit_races_touch":
+		vfE5ReplayExitAnswer(t, name)
+	case "topic_double_delete_unlinks_fresh":
+		vfE5ReplayDoubleDelete(t, name)
+	case "topic_delete_races_sub", "topic_delete_races_sub_early", "topic_delete_races_create_channel":
+		vfE5ReplayTopicDeleteSub(t, name)
 	case "f9_pump_holds":
 		vfE5ReplayF9Pump(t, name)
 	case "f9_put_after_exit_check":
@@ -393,9 +399,17 @@ func vfE5ReplayF9Put(t *testing.T, name string) {
 	res := make(chan error, 1)
 	go func() { res <- topic.PutMessage(NewMessage(topic.GenerateID(), []byte("m"))) }()
 	g.wait(t)
-	// ... Exit closes and flushes the topic, then the publisher's queue write happens
+	// ... Exit closes and flushes the topic, then the publisher's queue write happens; or (tree with
+	// the topic-exit barrier) Exit waits for the publisher's read lock: give it ample time, then let
+	// the publisher go on
 	close(ge.release)
-	exit := <-exitRes
+	exit := ""
+	exitedFirst := false
+	select {
+	case exit = <-exitRes:
+		exitedFirst = true
+	case <-time.After(1500 * time.Millisecond):
+	}
 	close(g.release)
 	var perr error
 	select {
@@ -403,9 +417,78 @@ func vfE5ReplayF9Put(t *testing.T, name string) {
 	case <-time.After(5 * time.Second):
 		perr = fmt.Errorf("publisher blocked")
 	}
+	if exit == "" {
+		exit = <-exitRes
+	}
 	n2 := vfE5Restart(t, opts, dir)
 	depth := vfE5TotalDepth(n2, "f9", "c")
-	fmt.Printf("E5REPLAY %s acked=%v exit=%s depth_after_restart=%d lost=%v\n", name, perr == nil, exit, depth, perr == nil && depth == 0)
+	fmt.Printf("E5REPLAY %s acked=%v exit=%s exit_finished_while_publisher_parked=%v depth_after_restart=%d lost=%v\n",
+		name, perr == nil, exit, exitedFirst, depth, perr == nil && depth == 0)
+	n2.Exit()
+}
+
+// A consumer's answer racing the shutdown: REQ (immediate or deferred) or TOUCH has taken the message
+// out of the in-flight map (parked at chan.req.afterPop / chan.touch.afterPop) when NSQD.Exit() is
+// called.  If Exit can run to its end while the answer is parked, Channel.flush sees the message in no
+// container: it is written nowhere, and the answer then either fails with "exiting" (REQ 0) or puts it
+// into a map of a closed channel (REQ > 0, TOUCH).  After a restart the message must still be there.
+func vfE5ReplayExitAnswer(t *testing.T, name string) {
+	dir := t.TempDir()
+	opts := vfE5Opts(dir)
+	opts.MemQueueSize = 10
+	n, err := New(opts)
+	if err != nil {
+		t.Fatal(err)
+	}
+	n.LoadMetadata()
+	n.PersistMetadata()
+	go n.Main()
+	topic := n.GetTopic("xa")
+	ch := topic.GetChannel("c")
+	acked := 0
+	for i := 0; i < 2; i++ {
+		if topic.PutMessage(NewMessage(topic.GenerateID(), []byte{byte(i)})) == nil {
+			acked++
+		}
+	}
+	for d := time.Now().Add(5 * time.Second); ch.Depth() < 2 && time.Now().Before(d); {
+		time.Sleep(time.Millisecond)
+	}
+	msg := <-ch.memoryMsgChan
+	msg.Attempts++
+	ch.StartInFlightTimeout(msg, 77, time.Minute)
+	point := "chan.req.afterPop"
+	op := func() error { return ch.RequeueMessage(77, msg.ID, 0) }
+	switch name {
+	case "exit_races_req_deferred":
+		op = func() error { return ch.RequeueMessage(77, msg.ID, time.Minute) }
+	case "exit_races_touch":
+		point = "chan.touch.afterPop"
+		op = func() error { return ch.TouchMessage(77, msg.ID, time.Minute) }
+	}
+	g := vfE5NewGate(point)
+	var operr error
+	ans := make(chan string, 1)
+	go func() { ans <- vfE5Try(20*time.Second, func() { operr = op() }) }()
+	g.wait(t)
+	exitRes := make(chan string, 1)
+	go func() { exitRes <- vfE5Try(20*time.Second, func() { n.Exit() }) }()
+	exit := ""
+	exitedFirst := false
+	select {
+	case exit = <-exitRes:
+		exitedFirst = true
+	case <-time.After(1500 * time.Millisecond):
+	}
+	close(g.release)
+	ansRes := <-ans
+	if exit == "" {
+		exit = <-exitRes
+	}
+	n2 := vfE5Restart(t, opts, dir)
+	depth := vfE5TotalDepth(n2, "xa", "c")
+	fmt.Printf("E5REPLAY %s acked=%d exit=%s answer=%s answer_err=%v exit_finished_while_answer_parked=%v depth_after_restart=%d lost=%v\n",
+		name, acked, exit, ansRes, operr != nil, exitedFirst, depth, depth < int64(acked))
 	n2.Exit()
 }
 
@@ -954,4 +1037,203 @@ func vfE5ReplayEphLeave(t *testing.T, name string) {
 	}
 	fmt.Printf("E5REPLAY %s rounds=%d topics_left_behind=%d first_round=%d wrong=%v\n", name, rounds, stuck, first, stuck > 0)
 	os.Exit(0)
+}
+
+// vfE5Frames reads nsq frames from conn until the deadline; returns the frame types/bodies seen
+// ("r:OK", "e:E_...", "m") and whether the peer closed the connection.
+func vfE5Frames(conn net.Conn, d time.Duration) (frames []string, closed bool) {
+	conn.SetReadDeadline(time.Now().Add(d))
+	var acc []byte
+	buf := make([]byte, 4096)
+	for {
+		for len(acc) >= 8 {
+			size := int(acc[0])<<24 | int(acc[1])<<16 | int(acc[2])<<8 | int(acc[3])
+			if len(acc) < 4+size {
+				break
+			}
+			ft := int(acc[7])
+			body := acc[8 : 4+size]
+			switch ft {
+			case 0:
+				if string(body) == "_heartbeat_" {
+					conn.Write([]byte("NOP\n"))
+				} else {
+					frames = append(frames, "r:"+string(body))
+				}
+			case 1:
+				frames = append(frames, "e:"+strings.ReplaceAll(string(body), " ", "_"))
+			case 2:
+				frames = append(frames, "m")
+			}
+			acc = acc[4+size:]
+		}
+		k, err := conn.Read(buf)
+		acc = append(acc, buf[:k]...)
+		if err != nil {
+			if ne, ok := err.(net.Error); ok && ne.Timeout() {
+				return frames, false
+			}
+			if k == 0 {
+				return frames, true
+			}
+		}
+	}
+}
+
+// DeleteExistingTopic racing a SUB (or a channel creation) of the same topic name.
+//   topic_delete_races_sub: consumer A is subscribed to tz:c; DeleteExistingTopic("tz") is parked at
+//     topic.delete.beforeUnlink (topic.Delete() has finished: every channel deleted, consumers closed,
+//     files removed; the dead topic is still in the topic map); consumer B sends SUB tz c; the delete is
+//     released.  Property: after the delete B is either disconnected / refused, or subscribed to a
+//     channel that publishes to "tz" reach.  A SUB answered OK on a channel object that no map holds
+//     (B stays connected and never receives anything) is a consumer the delete did not disconnect.
+//   topic_delete_races_sub_early: B subscribes while the delete is parked at topic.delete.afterNotify
+//     (exit flag set, channels not yet deleted): the delete loop then closes B as well.
+//   topic_delete_races_create_channel: GetTopic + GetChannel("d") in the late window: the channel is
+//     created inside the dead topic; after the delete no file and no metadata entry may be left.
+func vfE5ReplayTopicDeleteSub(t *testing.T, name string) {
+	dir := t.TempDir()
+	opts := vfE5Opts(dir)
+	opts.MemQueueSize = 0
+	n, err := New(opts)
+	if err != nil {
+		t.Fatal(err)
+	}
+	n.LoadMetadata()
+	n.PersistMetadata()
+	go n.Main()
+	defer n.Exit()
+	topic := n.GetTopic("tz")
+	topic.GetChannel("c")
+	dial := func() net.Conn {
+		conn, err := net.DialTimeout("tcp", n.RealTCPAddr().String(), 2*time.Second)
+		if err != nil {
+			t.Fatal(err)
+		}
+		conn.Write([]byte("  V2"))
+		return conn
+	}
+	a := dial()
+	defer a.Close()
+	a.Write([]byte("SUB tz c\n"))
+	fa, _ := vfE5Frames(a, 300*time.Millisecond)
+	point := "topic.delete.beforeUnlink"
+	if name == "topic_delete_races_sub_early" {
+		point = "topic.delete.afterNotify"
+	}
+	g := vfE5NewGate(point)
+	del := make(chan string, 1)
+	go func() { del <- vfE5Try(20*time.Second, func() { n.DeleteExistingTopic("tz") }) }()
+	g.wait(t)
+	bAns := "n/a"
+	var b net.Conn
+	created := "n/a"
+	if name == "topic_delete_races_create_channel" {
+		tp := n.GetTopic("tz")
+		ch := tp.GetChannel("d")
+		created = fmt.Sprintf("dead_topic=%v,channel_exiting=%v", tp.Exiting(), ch.Exiting())
+	} else {
+		b = dial()
+		defer b.Close()
+		b.Write([]byte("SUB tz c\n"))
+		fb, closed := vfE5Frames(b, 500*time.Millisecond)
+		bAns = strings.Join(fb, ",")
+		if closed {
+			bAns += "+closed"
+		}
+		if bAns == "" {
+			bAns = "none"
+		}
+	}
+	close(g.release)
+	delRes := <-del
+	time.Sleep(50 * time.Millisecond)
+	_, aClosed := vfE5Frames(a, 300*time.Millisecond)
+	// afterwards: publish to the name (a fresh topic is created), B asks for a message
+	tp2 := n.GetTopic("tz")
+	fresh := tp2 != topic
+	bGot, bClosed, bReachable := false, false, false
+	if b != nil {
+		_, inMap := tp2.GetExistingChannel("c")
+		bReachable = inMap == nil
+		tp2.PutMessage(NewMessage(tp2.GenerateID(), []byte("after")))
+		b.Write([]byte("RDY 1\n"))
+		fb, closed := vfE5Frames(b, 700*time.Millisecond)
+		bClosed = closed
+		for _, f := range fb {
+			if f == "m" {
+				bGot = true
+			}
+		}
+	}
+	files := []string{}
+	ents, _ := os.ReadDir(dir)
+	for _, e := range ents {
+		if strings.HasPrefix(e.Name(), "tz:") {
+			files = append(files, e.Name())
+		}
+	}
+	meta, _ := os.ReadFile(dir + "/nsqd.dat")
+	listed := strings.Contains(string(meta), `"name":"d"`)
+	zombie := b != nil && strings.HasPrefix(bAns, "r:OK") && !bClosed && !bGot
+	fmt.Printf("E5REPLAY %s a_sub=%s delete=%s a_closed=%v b_sub=%s b_closed_after=%v b_channel_in_map=%v b_got_message=%v fresh_topic=%v created=%s files_left=%d listed_in_metadata=%v zombie_consumer=%v\n",
+		name, strings.Join(fa, ","), delRes, aClosed, bAns, bClosed, bReachable, bGot, fresh, created, len(files), listed, zombie)
+}
+
+// Two deletions of the same topic name with a re-creation in between.  D1 = DeleteExistingTopic("tz")
+// is parked right after it set the exit flag (topic.delete.afterNotify).  D2 = a second
+// DeleteExistingTopic("tz"): its topic.Delete() fails with "exiting" (ignored), it unlinks the name and
+// returns nil.  A publisher / subscriber now gets a fresh topic object of the same name (with a consumer
+// and a message).  D1 continues: it empties and deletes the disk queue *of that name* and finally
+// unlinks *the name* - whatever object is registered under it.  Property: an object that was created after
+// a completed deletion is not touched by the older deletion.
+func vfE5ReplayDoubleDelete(t *testing.T, name string) {
+	dir := t.TempDir()
+	opts := vfE5Opts(dir)
+	opts.MemQueueSize = 0
+	n, err := New(opts)
+	if err != nil {
+		t.Fatal(err)
+	}
+	n.LoadMetadata()
+	n.PersistMetadata()
+	go n.Main()
+	defer n.Exit()
+	t1 := n.GetTopic("tz")
+	t1.GetChannel("c")
+	g := vfE5NewGate("topic.delete.afterNotify")
+	d1 := make(chan string, 1)
+	go func() { d1 <- vfE5Try(20*time.Second, func() { n.DeleteExistingTopic("tz") }) }()
+	g.wait(t)
+	var d2err error
+	d2 := vfE5Try(5*time.Second, func() { d2err = n.DeleteExistingTopic("tz") })
+	t2 := n.GetTopic("tz")
+	fresh := t2 != t1 && !t2.Exiting()
+	t2.GetChannel("c")
+	conn, err := net.DialTimeout("tcp", n.RealTCPAddr().String(), 2*time.Second)
+	if err != nil {
+		t.Fatal(err)
+	}
+	defer conn.Close()
+	conn.Write([]byte("  V2"))
+	conn.Write([]byte("SUB tz c\n"))
+	fb, _ := vfE5Frames(conn, 300*time.Millisecond)
+	acked := t2.PutMessage(NewMessage(t2.GenerateID(), []byte("m1"))) == nil
+	time.Sleep(50 * time.Millisecond)
+	close(g.release)
+	r1 := <-d1
+	time.Sleep(50 * time.Millisecond)
+	cur, gerr := n.GetExistingTopic("tz")
+	stillMapped := gerr == nil && cur == t2
+	conn.Write([]byte("RDY 1\n"))
+	fm, closed := vfE5Frames(conn, 700*time.Millisecond)
+	got := false
+	for _, f := range fm {
+		if f == "m" {
+			got = true
+		}
+	}
+	wrong := fresh && d2err == nil && (!stillMapped || (acked && !got))
+	fmt.Printf("E5REPLAY %s d1=%s d2=%s d2_err=%v fresh_topic=%v b_sub=%s acked=%v fresh_still_in_map=%v fresh_exiting=%v b_closed=%v b_got_message=%v older_delete_hit_fresh_topic=%v\n",
+		name, r1, d2, d2err != nil, fresh, strings.Join(fb, ","), acked, stillMapped, t2.Exiting(), closed, got, wrong)
 }
